@@ -93,6 +93,8 @@ type Sched struct {
 
 	nextL   atomic.Int64
 	selMode atomic.Uint64
+	mapSeed atomic.Uint64 // 0: maps are ranged in sorted key order
+	mapIter atomic.Uint64
 	stepCtr atomic.Uint64
 	driver  uint64 // goroutine id of the driver: never parks
 
@@ -114,6 +116,10 @@ func New() *Sched {
 
 // Activate installs s. selMode: 0 = every select polls in source order,
 // 1 = "last case first", otherwise a hash of (selMode, step) decides.
+// SetMapSeed makes every `range` over a map of the instrumented packages visit
+// its keys in a permutation drawn from seed (0: sorted order).
+func (s *Sched) SetMapSeed(seed uint64) { s.mapSeed.Store(seed) }
+
 func (s *Sched) Activate(selMode uint64) {
 	s.selMode.Store(selMode)
 	s.driver = verifGoid()
